@@ -291,11 +291,13 @@ def writeableValue (a : Addr) (v : PyVal) : Except Exn (Bytes × Nat) :=
   | none => .error .request
   | some ty =>
     if a.count > 1 then
+      -- a bit address takes a single value: `Xf:e/b{n}` is refused before the values are looked at
+      if bitField then .error .request else
       match v.len?, v.seq? with
       | some n, some xs =>
           if n < a.count then .error .request else
           match encodeList (encode ty) (xs.take a.count) with
-          | .ok bs => .ok ((if bitField then leBytes 2 (2 ^ a.subElement) else [0xFF, 0xFF]) ++ bs, size)
+          | .ok bs => .ok ([0xFF, 0xFF] ++ bs, size)
           | .error _ => .error .request
       | _, _ => .error (.foreign "TypeError")
     else if bitField then
